@@ -546,6 +546,143 @@ Proof.
       cbn [refs form_chans]; rewrite Er; rewrite ?in_app_iff; try (left; tauto); right; apply elem_In; simpl; rewrite ?in_app_iff; tauto.
 Qed.
 
+Lemma recv_body pp k : action_of Async D pp = ARecv k -> is_fwd_body pp = false -> recv_form (pr_body0 pp).
+Proof.
+  intros Ha Hf. unfold action_of in Ha. unfold is_fwd_body in Hf.
+  destruct (pr_body0 pp) eqn:Eb; simpl; try done; simpl in Ha;
+    repeat match type of Ha with
+           | (if ?b then _ else _) = _ => destruct b eqn:?
+           | match ?x with _ => _ end = _ => destruct x eqn:?
+           end;
+    try discriminate;
+    try (unfold internal in Ha; destruct (multi pp); discriminate);
+    try (unfold send_on in Ha; destruct (multi pp); [discriminate|]; repeat match type of Ha with match ?x with _ => _ end = _ => destruct x end; discriminate).
+Qed.
+
+Lemma fwd_recv_chan pp to from d k : pr_body0 pp = FFwd to from d -> action_of Async D pp = ARecv k -> chan from = Some k.
+Proof.
+  intros Eb Ha. unfold action_of in Ha. rewrite Eb in Ha. simpl in Ha.
+  repeat match type of Ha with
+         | (if ?b then _ else _) = _ => destruct b eqn:?
+         | match ?x with _ => _ end = _ => destruct x eqn:?
+         end; try discriminate. by injection Ha as ->.
+Qed.
+
+Lemma put_none_objs c k st o : obj_in (put_msg c k st None) o -> obj_in c o.
+Proof.
+  destruct o as [q v|k' m']; cbn; [done|]. intros (st' & H & Hb). apply lookup_insert_Some in H as [[<- <-]|[_ H]]; [discriminate|].
+  by exists st'.
+Qed.
+
+Lemma invx_recv Δ c p pp k st m e :
+  cfg_typed D F teq Δ c -> Topo c -> LinCfg c -> ns_ok c -> ProvsOk c -> DropUnref c -> NoFd c ->
+  procs c !! p = Some pp -> action_of Async D pp = ARecv k ->
+  chans c !! k = Some st -> ch_buf st = Some m -> ch_closed st = false ->
+  on_message p pp m = EOk e -> Rest (apply_effect (put_msg c k st None) p pp e).
+Proof.
+  intros Hc Ht Hl Hns Hpv Hd Hnf Hp Ea Hk Hb Hcl He.
+  pose proof (ct_procs D F teq Δ c Hc p pp Hp) as Hpt. destruct Hpt as (s & rs & Hne & Hprovs & Hty).
+  pose proof (lc_procs c Hl p pp Hp) as Hlinp. pose proof (Hnf p pp Hp) as Hnfp. pose proof (proj1 Hpv p pp Hp) as Hndp.
+  pose proof (ct_msgs D F teq Δ c Hc k st m Hk Hb) as Hmt.
+  assert (Hmsg : obj_in c (OMsg k m)) by (exists st; done).
+  pose proof (typed_action D F teq Hteq HF Δ pp (ct_procs D F teq Δ c Hc p pp Hp)) as Hv. rewrite Ea in Hv.
+  inversion Hv as [|k' Hk' Hside Hrecv| |]; subst. destruct Hside as (T & HT & Hside).
+  pose proof Hmt as Hmt2. eapply msg_pol in Hmt2 as (T' & HT' & Hpol); eauto. rewrite HT in HT'. injection HT' as <-.
+  set (R := fun j => j ∈ form_chans (pr_body0 pp) \/ j ∈ refs (OMsg k m)).
+  assert (HR : forall j, R j -> exists o, obj_in c o /\ j ∈ refs o).
+  { intros j [Hj|Hj]; [exists (OProc p pp)|exists (OMsg k m)]; done. }
+  assert (HkΔ : forall a, (pr_next pp <= a)%nat -> Δ !! (p ++ [a]) = None).
+  { intros a Ha. apply (ct_fresh D F teq Δ c Hc p _ a [] Hp). lia. }
+  assert (Hdrop : forall cls ss cs p2, droppable_fwds p pp cls = (ss, cs, p2) ->
+            (forall cl j, In cl cls -> In j (name_chans cl) -> R j /\ is_Some (Δ !! j)) ->
+            forall s0, In s0 ss ->
+              affr None (sp_body s0) /\ NoDup (cids_of (sp_provs s0)) /\
+              (forall j, j ∈ form_chans (sp_body s0) -> R j \/ Δ !! j = None) /\
+              (nofd (sp_body s0) = true \/
+               (is_dfwd (sp_body s0) = true /\ length (sp_provs s0) = 1%nat /\ (forall j, j ∈ cids_of (sp_provs s0) -> Δ !! j = None) /\
+                old_only Δ (Eff Finish ss cs [] [])))).
+  { intros cls ss cs p2 Ed Hcls. rewrite droppable_fwds_eq in Ed. injection Ed as <- <- <-.
+    assert (Hchs : forall i cl j, cls !! i = Some cl -> j ∈ form_chans (sp_body (dspawn p (pr_next pp) i cl)) -> In j (name_chans cl)).
+    { intros i cl j _ Hj. cbn in Hj. unfold name_chans in Hj at 1. simpl in Hj. by apply elem_In. }
+    intros s0 Hs0. apply elem_In, elem_of_lookup_imap in Hs0 as (i & cl & -> & Hcli).
+    assert (Hin : In cl cls) by (apply elem_In; eapply elem_of_list_lookup_2; eauto).
+    split; [by apply affr_fwd_leaf|]. split; [cbn; repeat constructor; simpl; tauto|]. split.
+    - intros j Hj. left. eapply Hcls; eauto.
+    - right. split; [done|]. split; [done|]. split.
+      + intros j Hj. cbn in Hj. apply elem_of_list_singleton in Hj as ->. apply HkΔ. lia.
+      + split; [intros pp1 E; discriminate|]. intros s1 Hs1 j Hj. cbn [e_spawn] in Hs1.
+        apply elem_In, elem_of_lookup_imap in Hs1 as (i1 & cl1 & -> & Hcl1).
+        eapply Hcls; [apply elem_In; eapply elem_of_list_lookup_2; eauto|eapply Hchs; eauto]. }
+  destruct (is_dfwd (pr_body0 pp)) eqn:Edf.
+  - (* a droppable forward receives: the message is dropped *)
+    destruct (pr_body0 pp) as [| | | | | | |to from d| | | | | |] eqn:Eb; try discriminate. destruct d; [|discriminate].
+    pose proof (fwd_recv_chan pp to from true k Eb Ea) as Hfrom.
+    assert (Hkb : k ∈ form_chans (pr_body0 pp)) by (rewrite Eb; simpl; unfold name_chans at 2; rewrite Hfrom; set_solver).
+    assert (Hpos : is_pos_rule (m_rule m) = true).
+    { destruct (is_pos_rule (m_rule m)) eqn:E; [done|]. exfalso. destruct Hside as [[Hown _]|[_ Hp']].
+      - eapply (topo_ne c (OProc p pp) k k); eauto. cbn. by apply own_chan_provides.
+      - eapply (pol_unique D); eauto. }
+    pose proof Hmt as Hmt3. eapply pos_msg_refs in Hmt3 as [Hrefs Hprov]; eauto.
+    split.
+    + eapply (topo_dropfwd_recv D F teq Hteq Δ c p pp to from k st m e); eauto.
+      intros j o2 Hj Ho2. destruct (Hd p pp Hp) as [_ H]; [by rewrite Eb|]. by apply H.
+    + unfold on_message in He. rewrite Eb in He. cbn [negb] in He. rewrite !andb_false_r in He.
+      fold (carried m) in He. destruct (droppable_fwds p pp (carried m)) as [[ss cs] p2] eqn:Ed. injection He as <-.
+      apply (rest_of_effect Δ c (put_msg c k st None) p _ _ R); auto.
+      * apply put_none_objs.
+      * intros pp1 E. discriminate.
+      * apply (Hdrop (carried m) ss cs p2 Ed). intros cl j Hcli Hj.
+        assert (Hjr : j ∈ refs (OMsg k m)).
+        { rewrite <- Hrefs, <- carried_chans. apply elem_In. apply in_flat_map. eauto. }
+        split; [by right|]. eapply (obj_chans_typed D F teq Δ c (OMsg k m)); eauto.
+  - destruct (rule_eqb (m_rule m) RGC) eqn:Egc.
+    + (* a GC request *)
+      apply rule_eqb_eq in Egc. destruct (is_fwd_body pp) eqn:Ef.
+      { exfalso. unfold on_message in He. fold (is_fwd_body pp) in He. rewrite Ef, Egc in He. cbn [rule_eqb negb andb] in He.
+        unfold is_fwd_body in Ef. destruct (pr_body0 pp) as [| | | | | | |to from d| | | | | |]; try discriminate.
+        destruct d; discriminate. }
+      pose proof (recv_body pp k Ea Ef) as Hform.
+      assert (Hprov : cids_of (pr_provs pp) = [k]).
+      { destruct (recv_view_of D pp k Hne Ea) as [n Hn Hcn _|Hcl'].
+        - rewrite Hn. cbn. by rewrite Hcn.
+        - exfalso. assert (E : OProc p pp = OMsg k m); [|discriminate].
+          eapply (topo_ref_unique c Ht _ _ k); eauto; [cbn; by apply elem_In|cbn; rewrite Egc; set_solver]. }
+      split.
+      * eapply (topo_gc_recv D F teq Hteq Δ c p pp k st m e); eauto.
+      * unfold on_message in He. fold (is_fwd_body pp) in He. rewrite Ef, Egc in He. cbn [rule_eqb negb andb] in He.
+        destruct (droppable_fwds p pp (free_names (pr_body0 pp))) as [[ss cs] p2] eqn:Ed. injection He as <-.
+        apply (rest_of_effect Δ c (put_msg c k st None) p _ _ R); auto.
+        -- apply put_none_objs.
+        -- intros pp1 E. discriminate.
+        -- apply (Hdrop (free_names (pr_body0 pp)) ss cs p2 Ed). intros cl j Hcl' Hj.
+           assert (Hjb : In j (form_chans (pr_body0 pp))) by (eapply free_names_chans; eauto).
+           split; [left; by apply elem_In|]. exact (form_chans_typed D F teq Δ _ _ _ _ _ j Hty Hjb).
+    + (* the other messages *)
+      assert (Hgc : m_rule m <> RGC) by (intros E; rewrite E in Egc; discriminate).
+      assert (Hfwr : is_fwd_body pp = true -> m_rule m <> RFWD).
+      { intros Ef Hr. unfold is_fwd_body in Ef. destruct (pr_body0 pp) as [| | | | | | |to from d| | | | | |] eqn:Eb; try discriminate.
+        pose proof (fwd_recv_chan pp to from d k Eb Ea) as Hfrom.
+        destruct Hside as [[Hown _]|[_ Hpos]].
+        - destruct Hown as (n & Hn & Hcn). assert (E : OProc p pp = OMsg k m); [|discriminate].
+          eapply (topo_ref_unique c Ht _ _ k); eauto; [|cbn; rewrite Hr; set_solver].
+          cbn. rewrite Eb. simpl. unfold name_chans at 2. rewrite Hfrom. set_solver.
+        - rewrite Hr in Hpol. simpl in Hpol. eapply (pol_unique D); eauto. }
+      assert (Hcr : core_recv pp m).
+      { split; [done|]. destruct (pr_body0 pp) as [| | | | | | |to from d| | | | | |] eqn:Eb; try done.
+        split; [destruct d; [discriminate|done]|]. apply Hfwr. unfold is_fwd_body. by rewrite Eb. }
+      assert (Hnofd : nofd (pr_body0 pp) = true) by (unfold nofd_top in Hnfp; rewrite Edf in Hnfp; exact Hnfp).
+      destruct (lin_recv_step D F teq Hteq HF Δ c p pp k st m e Hc Ht Hl Hp Ea Hk Hb He Hcr) as (pp1 & cl & -> & Haf1).
+      destruct (on_message_facts p pp k m _ He Hgc Edf Hfwr Hnofd) as (pp1' & cl' & E & Hprovs1 & Hnofd1 & Hch1). injection E as <- <-.
+      split; [eapply (topo_recv_step D F teq Hteq HF c p pp k st m); eauto|].
+      apply (rest_of_effect Δ c (put_msg c k st None) p _ _ R); auto.
+      * apply put_none_objs.
+      * intros pp2 [= <-]. split; [exact Haf1|]. split.
+        { destruct Hprovs1 as [->|[[Hr ->]|[n ->]]]; [exact Hndp|exact (proj2 Hpv k st m Hk Hb Hr)|].
+          cbn. destruct (chan n); repeat constructor; simpl; tauto. }
+        split; [exact Hnofd1|]. intros j Hj. apply elem_In in Hj. left. destruct (Hch1 j Hj) as [H|H]; [left; by apply elem_In|by right].
+      * intros s0 [].
+Qed.
+
 Record InvX (c : config) : Prop := {
   ix_typed : exists Δ, cfg_typed D F teq Δ c;
   ix_topo : Topo c;
